@@ -159,6 +159,50 @@ def check_lookups(ctx, dx, m, w, hexdata):
             ctx.violation("lookup-field-descriptor-key-collision" if e is not None else "lookup-field-descriptor",
                           "get_encoded_field_descriptor returned a non-matching item or missed a declared one",
                           {"key": [cn, nm, ty], "got": None if e is None else [e.get_class_name(), e.get_name(), e.get_descriptor()], "dex": hexdata})
+    # id-item lookups (every method/field *reference* of the file, defined or not)
+    ref_methods = [(c_, n_, "(%s)%s" % ("".join(p_), r_)) for (c_, n_, r_, p_) in w.method_list]
+    ref_fields = list(w.field_list)
+    for getter, items, kind in ((dx.get_methods, ref_methods, "method"), (dx.get_fields, ref_fields, "field")):
+        ctx.count("lookups")
+        try:
+            if kind == "method":
+                got = [(i.get_class_name(), i.get_name(), nospace(i.get_descriptor())) for i in getter()]
+            else:
+                got = [(i.get_class_name(), i.get_name(), i.get_descriptor()) for i in getter()]
+        except Exception as e:
+            ctx.violation("lookup-id-items-raise", "listing the %s id items raises" % kind, {"exc": exc_str(e), "dex": hexdata})
+            continue
+        if got != [tuple(x) for x in items]:
+            ctx.violation("lookup-%s-id-items" % kind, "the %s id items differ from the file's %s_ids section" % (kind, kind), {"got": got[:10], "want": items[:10], "dex": hexdata})
+    for nm in sorted({x[1] for x in ref_methods})[:6]:
+        ctx.count("lookups")
+        try:
+            got = sorted((i.get_class_name(), i.get_name(), nospace(i.get_descriptor())) for i in dx.get_method(re.escape(nm) + "$"))
+        except Exception as e:
+            ctx.violation("lookup-get_method-raises", "DEX.get_method(name) raises", {"name": nm, "exc": exc_str(e)})
+            break
+        want = sorted(x for x in ref_methods if x[1] == nm)
+        if got != want:
+            ctx.violation("lookup-get_method", "DEX.get_method(name$) differs from the method references of that name", {"name": nm, "got": got, "want": want, "dex": hexdata})
+    for nm in sorted({x[1] for x in ref_fields})[:6]:
+        ctx.count("lookups")
+        try:
+            got = sorted((i.get_class_name(), i.get_name(), i.get_descriptor()) for i in dx.get_field(re.escape(nm) + "$"))
+        except Exception as e:
+            ctx.violation("lookup-get_field-raises", "DEX.get_field(name) raises", {"name": nm, "exc": exc_str(e)})
+            break
+        want = sorted(x for x in ref_fields if x[1] == nm)
+        if got != [tuple(x) for x in want]:
+            ctx.violation("lookup-get_field", "DEX.get_field(name$) differs from the field references of that name", {"name": nm, "got": got, "want": want, "dex": hexdata})
+    # by index
+    for (cn, nm, ps, rt) in all_methods[:8]:
+        ctx.count("lookups")
+        idx = w.midx[(cn, nm, rt, tuple(ps))]
+        e = dx.get_encoded_method_by_idx(idx)
+        if e is None or (e.get_class_name(), e.get_name(), nospace(e.get_descriptor())) != (cn, nm, "(%s)%s" % ("".join(ps), rt)):
+            ctx.violation("lookup-method-by-idx", "get_encoded_method_by_idx returns another method than the one with that index", {"idx": idx, "want": [cn, nm], "dex": hexdata})
+    if dx.get_len_classes() != len(cls_names) or dx.get_len_strings() != len(w.string_list) or dx.get_len_methods() != len(w.method_list) or dx.get_len_fields() != len(w.field_list):
+        ctx.violation("lookup-lengths", "get_len_* differ from the section sizes", {"dex": hexdata})
     # regex prefix lookups by exact name
     for nm in sorted({x[1] for x in all_methods})[:8]:
         ctx.count("lookups")
